@@ -330,6 +330,23 @@ def deep_diff(a, b, where):
     return None          # other objects (none expected): not compared
 
 
+def species_count_phase(chk):
+    """menu lists every species exactly once whatever their NUMBER is (the species box prints eight to a line): 7, 8, 9, 15, 16, 17,
+    24 species next to two ordinary fields."""
+    for k, ns in enumerate((7, 8, 9, 15, 16, 17, 24)):
+        sp = ["Y(S%d)" % i for i in range(ns)]
+        fields = ["density"] + sp[:ns // 2] + ["temp"] + sp[ns // 2:]
+        sc = {"fields": fields, "mode": "default", "sig": ["species-count", ns],
+              "expect": {"classes": [], "species": sp}}
+        cfgseed = chk.rng.randrange(1 << 30) * 3            # (no renaming of unknown names: multiples of three)
+        v = run_scenario(chk, sc, cfgseed, 3 if k % 2 else 2)
+        sigs = util.sig_str(["species-count", ns])
+        chk.executed(sigs, True, sample={"species": ns})
+        chk.traces += 1
+        if v:
+            chk.violation(sigs, v, {"sc": sc, "cfgseed": cfgseed, "ndims": 3 if k % 2 else 2, "sigs": sigs})
+
+
 def option_sets_phase(chk):
     """MenuOpts.tla: every subset of menu's options on one generated plotfile; each display the set asks for must be in the output,
     line for line as that display alone prints it (multiset of non-blank lines)."""
@@ -422,3 +439,4 @@ def run(chk, replay):
     from harness import cli
     cli.phase(chk, "menu")
     option_sets_phase(chk)
+    species_count_phase(chk)
